@@ -12,6 +12,10 @@ pub const ALT_DEFAULT: &[&str] = &[
     "0.0000001", "0.00000015", "-0.00000000025", "0.000001", "0.00001", "1000000000000000000000.0", "123456789012345678901234.5", "15e-8", "1.5e-7", "1e-7", "0.1e-3", "100e-2", "1e+21", "12.5e-1",
     // strings and characters spelled with hex escapes for every control character and DEL
     "\"\\x7f;\"", "\"a\\x7F;b\"", "\"\x7f\"", "\"\\x1f;\\x7f;\\x80;\\x9f;\\xa0;\"", "\"\\x0;\\x1;\\x8;\\xb;\\xc;\\xe;\\x1b;\"", "#\\x7f", "#\\x1f", "#\\x80", "#\\x9f", "#\\xa0", "#\\x0", "#\\x1b",
+    // negative floats written with an exponent and no fraction, and other spellings the printer does not use
+    "-1e21", "-1.0e21", "-7.0e22", "-5e-7", "-1E3", "-2e16", "+1e21", "-0.0000003", "-0e0", "-1e0",
+    // unquote followed by trivia and an @-initial symbol is NOT unquote-splicing
+    ", @a", "(, @rest)", ",\n@a", ",;c\n@a", ",@ a", "(a , @b c)",
     "0", "-0", "+5", "-5", "007", "#b101", "#b-101", "#o17", "#o+17", "#d10", "#d-10", "#xff", "#xFF", "#x-fF", "#x+0a", "#b0", "1.5", "-1.5", "+1.5",
     "1e3", "1E3", "1e+3", "1e-3", "1.5e3", "1.5E-3", "0.5", "10.25", "#d1.5", "#d1e3", "123456789012345678901234567890", "-123456789012345678901234567890",
     "18446744073709551615", "18446744073709551616", "-9223372036854775808", "-9223372036854775809", "1.0e21", "1e21", "5e-324", "1e-7", "100.0", "#xFFFFFFFFFFFFFFFFFFFF",
@@ -46,6 +50,8 @@ pub const ALT_ELISP: &[&str] = &[
     "\"\\x3bb\"", "\"\\u03bb\"", "\"\\U0001F600\"", "\"\\N{U+3bb}\"", "\"a\\ b\"", "\"\\101λ\"", "\"λ\"", "\"\\u0041\\101\"", "\"a\\qb\"", "\"\\\n\"", "\"\\400\"", "\"\\x100\"",
     "\"\\377\x7f\"", "\"\x7f\\377\"", "\"\\377a\"", "\"a\\377\"", "\"\\377 \"", "\"\\101\x7f\"", "\"é\\x21\"", "\"\\x21é\"", "\"\\377\\u00e9\"", "\"\\x21\u{80}\"", "\"\u{80}\\x21\"", "\"\\x21\\x7f\"",
     "0.0000001", "0.00000015", "15e-8", "1.5e-7", "1e-7", "-1e-7", "1e+21", "0.1e-3", "[0.00000015 15e-8]", "\"\\x7f\"", "\"a\\d\"", "?\\x7f", "?\\d", "?\\177", "\"\\177\"",
+    // Emacs byte strings spelled by hand: an escaped octet followed by an octet that is a digit
+    "\"\\001\\065\"", "\"\\x61\\x31\"", "\"\\377\\060\"", "\"\\0015\"", "\"\\1\\62\"", "\"\\x1\\ 5\"", "\"\\3777\"",
     "1abc", "1+", "1-", "1/2", "12ab", "0x10", "1.5.6", "1e3", "1e", "1.", "123", "-5", "1.5", "2020-01-01", "9a9", "(1+ x)", "[1- 2]", "550e8400-e29b-41d4-a716-446655440000",
     "(a . b)", "'a", "`(a ,b)", "#u8(1 2)", "#t", "#f", "#nil", "#\\a", "(defun f (x) \"doc\" (+ x 1))", "[?a ?b]", "(:k . v)", "[nil t]",
 ];
@@ -176,9 +182,46 @@ pub fn long_number_tokens() -> Vec<Vec<u8>> {
     out
 }
 
+/// Texts nested to exactly 126..=129 levels through every kind of opener and some mixtures (the
+/// documented limit is 128): an off-by-one in one of the arms that charge the nesting budget
+/// makes one API or one construct accept a level more or less than the others.
+pub fn depth_boundary_texts() -> Vec<Vec<u8>> {
+    let mut out = Vec::new();
+    let kinds: [(&str, &str); 6] = [("(", ")"), ("[", "]"), ("#(", ")"), ("'", ""), ("`", ""), ("(a . ", ")")];
+    for d in 126usize..=129 {
+        for (o, c) in kinds {
+            out.push(format!("{}x{}", o.repeat(d), c.repeat(d)).into_bytes());
+        }
+        // mixtures: lists outside, one other kind innermost; alternating
+        for (o, c) in kinds {
+            out.push(format!("{}{}x{}{}", "(".repeat(d - 1), o, c, ")".repeat(d - 1)).into_bytes());
+            out.push(format!("{}{}x{}{}", "(".repeat(60), o.repeat(d - 60), c.repeat(d - 60), ")".repeat(60)).into_bytes());
+        }
+    }
+    out
+}
+
+/// Every malformed item also on the third line of a multi-line text whose first lines are short
+/// (an error located with a column that belongs to another line is then out of bounds).
+pub fn malformed_on_later_lines() -> Vec<Vec<u8>> {
+    let mut out = Vec::new();
+    for m in MALFORMED {
+        out.push(format!("(a\n b\n  {})", m).into_bytes());
+        out.push(format!("\n\n{}", m).into_bytes());
+        out.push(format!("a\n{}\n", m).into_bytes());
+    }
+    for m in ["1e999", "1e400", "-1e999", "1.5e99999", "#xFFFFFFFFFFFFFFFFFFFFFFFFFFFFFFFFFFFFFFFFFFFFFFFFFFFFFFFFFFFFFFFFFFFFFFFFFFFFFFFFFFFFFFFFFFFFFFFFFFFFFFFFFFFFFFFFFFFFFFFFFFFFFFFFFFFFFFFFFFFFFFFFFFFFFFFFFFFFFFFFFFFFFFFFFFFFFFFFFFFFFFFFFFFFFFFFFFFFFFFFFFFFFFFFFFFFFFFFFFFFFFFFFFFFFFFFFFFFFFFFFFFFFFFFFFFFF"] {
+        out.push(format!("(a\n b\n  {})", m).into_bytes());
+        out.push(format!("(a\n b\n  {}\n)", m).into_bytes());
+    }
+    out
+}
+
 /// All texts of the corpus regardless of dialect, plus the malformed pool.
 pub fn corpus_all(rich: bool) -> Vec<Vec<u8>> {
     let mut v: Vec<Vec<u8>> = corpus_g(rich).into_iter().map(|x| x.0).collect();
+    v.extend(depth_boundary_texts());
+    v.extend(malformed_on_later_lines());
     for s in MALFORMED {
         v.push(s.as_bytes().to_vec());
     }
